@@ -148,10 +148,20 @@ CHECKS = {
         "note": TRUST + " Model-free.",
         "technique": "trace-equality monitor across repeated executions, processes and configurations",
     },
+    "C07": {
+        "text": "Exploration under sanitizers: the same hostile workload (legal prefix, one limit overrun that must panic, tainted phase) is run "
+                "natively with debug assertions, under AddressSanitizer (the instrument the property names), under Miri in two modes and (thorough) "
+                "under valgrind memcheck; each instrument first has to report a canary. Reports are classified into the four classes of the statement; "
+                "other UB kinds make the run inconclusive, never a verdict.",
+        "design_ref": "§4 C07, §3.2",
+        "note": TRUST + " Trusted: ASan/Miri/valgrind. ASan cannot see overflows inside one heap block and Miri only sees its small workloads; "
+                "the evidence lists calls per instrument.",
+        "technique": "compiler sanitizer (ASan) + UB interpreter (Miri, two modes) + valgrind memcheck over a hostile workload, with canaries",
+    },
 }
 
 _PENDING = "check under construction in this round; not claimed yet"
 NOT_APPLICABLE = [
     {"property_id": p, "reason": _PENDING}
-    for p in ["C07"]
+    for p in []
 ]
